@@ -4,10 +4,12 @@ from . import core, tables
 from .c05 import corpus_requests
 
 OPS = ["s:a:0", "s:b:0", "s::0", "s::1", "v:x:0", "v:y:2", "p"]
+# a second alphabet with variables that share a name and differ in their bit index (lookup_var_with_index)
+OPS_IDX = ["s:a:0", "v:x@1:0", "v:x@2:1", "v:x:2", "p"]
 RULE = ("`hier <ops>`: HierarchyBuilder call sequences (hook re-export) over {scope a, scope b, scope '', scope '' flattened, var x, var y, pop}; the reply is a dump "
-        "of the whole navigation surface (recursive walk through items(), vars()/scopes() per scope and at the top, iter_vars/iter_scopes full names, lookup_scope / lookup_var "
-        "for every existing path and absent ones, signal table, first_scope). Real code vs pointer-level Lean model vs the flat parent-pointer specification. "
-        "Quick: ALL sequences of length <= 6 (exhaustive) + seeded random sequences of length up to 200 with nesting up to 30 and larger alphabets. "
+        "of the whole navigation surface (recursive walk through items(), vars()/scopes() per scope and at the top, iter_vars/iter_scopes full names, lookup_scope / lookup_var / lookup_var_with_index "
+        "(same name, different bit indices) for every existing path and absent ones, signal table, first_scope). Real code vs pointer-level Lean model vs the flat parent-pointer specification. "
+        "Quick: ALL sequences of length <= 6 (exhaustive) over that alphabet and over {scope a, var x[1], var x[2], var x, pop} + seeded random sequences of length up to 200 with nesting up to 30 and larger alphabets. "
         "non-trivial = the hierarchy has at least one scope and one variable; distinct = distinct (request, reply)")
 
 
@@ -24,7 +26,8 @@ def rand_seq(rng, n):
             ops.append(f"s:{nm}:{fl}")
             depth += 1
         elif r < 0.75:
-            ops.append(f"v:{rng.choice(['x', 'y', 'z', 'x1'])}:{rng.choice([0, 1, 2, 3, 7, rng.randint(0, 40)])}")
+            idx = rng.choice(["", "", "@0", "@1", "@7", "@3"])
+            ops.append(f"v:{rng.choice(['x', 'y', 'z', 'x1'])}{idx}:{rng.choice([0, 1, 2, 3, 7, rng.randint(0, 40)])}")
         elif depth > 0:
             ops.append("p")
             depth -= 1
@@ -38,6 +41,9 @@ def requests(ctx):
     rq = ["hier -"]
     for k in range(1, (6 if quick else 7) + 1):
         for c in itertools.product(OPS, repeat=k):
+            rq.append("hier " + ";".join(c))
+    for k in range(1, (6 if quick else 8) + 1):
+        for c in itertools.product(OPS_IDX, repeat=k):
             rq.append("hier " + ";".join(c))
     for _ in range(1500 if quick else 20000):
         rq.append(rand_seq(rng, rng.choice([5, 12, 30, 80, 200])))
